@@ -70,8 +70,20 @@ struct HeapRun {
     }
     const Elem *a = (const Elem *)x, *b = (const Elem *)y;
     if ((!a->live || !b->live) && R->cberr.empty()) R->cberr = fmt("compar called with element #%d which is not in the heap", !a->live ? a->id : b->id);
-    return (a->key > b->key) - (a->key < b->key);
+    // the interface only gives the sign a meaning ("less than, equal to, or greater than zero"): per run the comparison answers with
+    // -1/0/1, with the key difference clamped to the int range (strcmp style), or with INT_MIN / INT_MAX
+    int sgn = (a->key > b->key) - (a->key < b->key);
+    switch (R->cmpstyle) {
+    case 1: {
+      int64_t d = (int64_t)a->key - (int64_t)b->key;
+      return d > INT32_MAX ? INT32_MAX : d < INT32_MIN ? INT32_MIN : (int)d;
+    }
+    case 2: return sgn > 0 ? INT32_MAX : sgn < 0 ? INT32_MIN : 0;
+    case 3: return sgn * 2;
+    default: return sgn;
+    }
   }
+  int cmpstyle = 0;
   static void setrc(void *cookie, void *ptr, size_t rc) {
     HeapRun *R = cur;
     if (cookie != (void *)cur && R->cberr.empty()) R->cberr = "setreccookie called with a cookie other than the one given to the constructor";
@@ -346,6 +358,9 @@ HeapRun *HeapRun::cur = nullptr;
 static Outcome run_heap(const Case &c) {
   Outcome o;
   HeapRun R(o);
+  R.cmpstyle = (int)(pbt::fnv(to_text(c)) % 4);  // chosen by the case itself, so that replays agree
+  static const char *CS[] = {"compar:-1/0/1", "compar:key-difference", "compar:INT_MIN/INT_MAX", "compar:-2/0/2"};
+  o.cls(CS[R.cmpstyle]);
   if (c.empty() || c[0].k != "new") R.begin(Op("new", {0, 0}));
   for (size_t i = 0; i < c.size() && o.ok; i++) R.step(c[i]);
   R.opno++;
@@ -688,6 +703,117 @@ static rc::Gen<Case> gen_tq(int tier) {
   return rc::gen::scale(tier ? 3.0 : 1.5, rc::gen::container<std::vector<Op>>(opg));
 }
 
+// =====================================================================================
+// (c) large structures: more than 2^17 entries (a sift then travels 17 levels or more)
+// =====================================================================================
+// Case: big n order seed incs.  n timers are added in the given order (0 random, 1 ascending, 2 descending, 3 few distinct times),
+// `incs` of them are increased, a third is deleted by cookie, and the rest is drained with getptr(far): release order must be
+// non-decreasing and every remaining pointer must come out exactly once.  The same with a pointer heap created from an array.
+static void harness_error(const char *m) {
+  fprintf(stderr, "HARNESS-ERROR: %s\n", m);
+  exit(3);
+}
+static int big_cmp(void *, const void *x, const void *y) {
+  uint64_t a = *(const uint64_t *)x, b = *(const uint64_t *)y;
+  return a < b ? -1 : a > b;
+}
+static Outcome run_big(const Case &c) {
+  Outcome o;
+  if (c.empty() || c[0].a.size() < 4) return o;
+  size_t n = (size_t)std::max<int64_t>(1000, std::min<int64_t>(c[0].a[0], 600000));
+  int order = (int)(c[0].a[1] & 3);
+  std::string rnd = prbytes((uint64_t)c[0].a[2], n * 8);
+  auto R = [&](size_t i) {
+    uint64_t v;
+    memcpy(&v, rnd.data() + 8 * i, 8);
+    return v;
+  };
+  size_t incs = (size_t)std::max<int64_t>(0, std::min<int64_t>(c[0].a[3], (int64_t)n));
+  // ---- timer queue
+  {
+    void *Q = tq_init();
+    if (!Q) harness_error("timerqueue_init failed");
+    std::vector<int64_t> t(n);
+    std::vector<void *> ck(n);
+    std::vector<uint8_t> state(n, 1);  // 1 in queue, 0 deleted, 2 released
+    std::vector<uint32_t> ids(n);
+    for (size_t i = 0; i < n; i++) {
+      ids[i] = (uint32_t)i;
+      t[i] = order == 0 ? (int64_t)(R(i) % 4000000000ULL) : order == 1 ? (int64_t)i * 3 : order == 2 ? (int64_t)(n - i) * 3 : (int64_t)(R(i) % 7);
+      ck[i] = tq_add(Q, t[i] / 1000000, t[i] % 1000000, &ids[i]);
+      if (!ck[i]) harness_error("timerqueue_add failed");
+    }
+    for (size_t j = 0; j < incs; j++) {
+      size_t i = (size_t)(R(j) >> 8) % n;
+      t[i] += (int64_t)(R(j) % 5000000000ULL);
+      tq_increase(Q, ck[i], t[i] / 1000000, t[i] % 1000000);
+    }
+    for (size_t i = 0; i < n; i += 3) {
+      tq_delete(Q, ck[i]);
+      state[i] = 0;
+    }
+    int64_t prev = INT64_MIN;
+    size_t released = 0, expect = 0;
+    for (size_t i = 0; i < n; i++) expect += state[i] == 1;
+    for (;;) {
+      uint32_t *p = (uint32_t *)tq_getptr(Q, (int64_t)1 << 40, 0);
+      if (!p) break;
+      size_t i = *p;
+      if (p != &ids[i] || state[i] != 1) {
+        o.fail("tq-big-release", fmt("timer queue of %zu entries: getptr released %s", n, p != &ids[i] ? "a pointer that was never stored" : state[i] == 0 ? "a deleted entry" : "an entry twice"));
+        break;
+      }
+      state[i] = 2;
+      if (t[i] < prev) {
+        o.fail("tq-big-order", fmt("timer queue of %zu entries (order %d, %zu increases): entry with time %lld released after one with time %lld (release #%zu)", n, order, incs, (long long)t[i],
+                                   (long long)prev, released));
+        break;
+      }
+      prev = t[i];
+      released++;
+    }
+    if (o.ok && released != expect) o.fail("tq-big-count", fmt("timer queue of %zu entries: %zu released, %zu were stored and not deleted", n, released, expect));
+    tq_free(Q);
+  }
+  // ---- pointer heap, created from an array
+  if (o.ok) {
+    std::vector<uint64_t> keys(n);
+    std::vector<void *> ptrs(n);
+    for (size_t i = 0; i < n; i++) {
+      keys[i] = order == 0 ? R(i) : order == 1 ? i : order == 2 ? n - i : R(i) % 5;
+      ptrs[i] = &keys[i];
+    }
+    void *H = ph_create(big_cmp, nullptr, nullptr, n, ptrs.data());
+    if (!H) harness_error("ptrheap_create failed");
+    uint64_t prevk = 0;
+    size_t cnt = 0;
+    for (;;) {
+      uint64_t *p = (uint64_t *)ph_getmin(H);
+      if (!p) break;
+      if (cnt && *p < prevk) {
+        o.fail("heap-big-order", fmt("pointer heap of %zu elements (order %d): key %llu came out after %llu (element #%zu)", n, order, (unsigned long long)*p, (unsigned long long)prevk, cnt));
+        break;
+      }
+      prevk = *p;
+      cnt++;
+      ph_deletemin(H);
+    }
+    if (o.ok && cnt != n) o.fail("heap-big-count", fmt("pointer heap of %zu elements: %zu came out", n, cnt));
+    ph_free(H);
+  }
+  o.cls(n > 262144 ? "entries>2^18" : n > 131072 ? "entries>2^17" : "entries<=2^17");
+  o.nontrivial = n > 131072;
+  return o;
+}
+static rc::Gen<Case> gen_big(int tier) {
+  return rc::gen::noShrink(rc::gen::exec([tier]() {
+    Case c;
+    int64_t n = *rc::gen::weightedOneOf<int64_t>({{3, range<int64_t>(131073, 300000)}, {1, range<int64_t>(262145, tier ? 600000 : 400000)}, {1, range<int64_t>(1000, 131072)}});
+    c.push_back(Op("big", {n, *range<int>(0, 3), *rc::gen::arbitrary<int>(), *rc::gen::weightedOneOf<int64_t>({{1, rc::gen::just<int64_t>(0)}, {2, range<int64_t>(1, n)}})}));
+    return c;
+  }));
+}
+
 int main(int argc, char **argv) {
   std::vector<Sub> subs;
   subs.push_back({"heap",
@@ -705,5 +831,10 @@ int main(int argc, char **argv) {
                   "Oracle: getmin = least stored time; getptr(t) NULL iff least > t else exactly the pointer of an entry with the least "
                   "time; cookies of other entries are used later. Non-trivial: delete of a non-least entry, an increase, and >= 1 release",
                   gen_tq, run_tq});
+  subs.push_back({"big",
+                  "a timer queue of 1000..600000 entries (mostly above 2^17, so that a sift travels 17 levels or more): added in random / ascending / descending / few-distinct order, "
+                  "some increased, every third deleted by cookie, the rest drained with getptr; then a pointer heap created from an array of the same size drained with "
+                  "getmin/deletemin. Oracle: release order non-decreasing, every stored and not deleted pointer exactly once. Non-trivial: more than 2^17 entries",
+                  gen_big, run_big});
   return pbt_main(argc, argv, subs);
 }
